@@ -90,7 +90,7 @@ var scenarios = []scenario{
 			pubN(r, 0, 1)
 			g2 := announce(r, 0, 2)
 			if g2 >= 0 {
-				r.RunUntil(g2, schedrv.YHandleLocked)
+				r.RunUntilOrTry(g2, schedrv.YHandleLocked)
 			}
 			r.RunToEnd(g)
 			r.Drain(nil)
@@ -104,7 +104,7 @@ var scenarios = []scenario{
 			pubN(r, 0, 1)
 			g2 := announce(r, 0, 2)
 			if g2 >= 0 {
-				r.RunUntil(g2, schedrv.YHandleLocked)
+				r.RunUntilOrTry(g2, schedrv.YHandleLocked)
 			}
 			r.RunUntil(g, schedrv.YHandleLocked)
 			if g2 >= 0 {
@@ -122,7 +122,7 @@ var scenarios = []scenario{
 			pubN(r, 0, 1)
 			g2 := announce(r, 0, 2)
 			if g2 >= 0 {
-				r.RunUntil(g2, schedrv.YHandleLocked)
+				r.RunUntilOrTry(g2, schedrv.YHandleLocked)
 			}
 			r.RunToEnd(g)
 			r.Drain(nil)
@@ -331,7 +331,7 @@ func report(c *vlib.Ctx, name string, r *schedrv.Run, what string) {
 	if len(r.Removed) > 0 {
 		c.Count("kind:handler-removed")
 	}
-	nerr, nrepl, waited := 0, 0, 0
+	nerr, nrepl := 0, 0
 	for _, e := range r.M.Events {
 		if e.Err {
 			nerr++
@@ -348,9 +348,6 @@ func report(c *vlib.Ctx, name string, r *schedrv.Run, what string) {
 			nrepl += n
 		}
 	}
-	for _, th := range r.M.Threads {
-		_ = th
-	}
 	if nerr > 0 {
 		c.Count("kind:with-failed-sync")
 	}
@@ -363,7 +360,6 @@ func report(c *vlib.Ctx, name string, r *schedrv.Run, what string) {
 	if nrepl > 0 || r.EverBlocked > 0 || r.MaxOpen > 1 {
 		c.Nontrivial(schedrv.DecisionsSig(r.Decisions))
 	}
-	_ = waited
 	c.CountN("blocked-waits", r.EverBlocked)
 }
 
@@ -459,7 +455,50 @@ func main() {
 			c.Count("random-aborted")
 		}
 	}
-	c.Note(fmt.Sprintf("%d directed + %d random schedules in %.1fs", len(scenarios), n, time.Since(t0).Seconds()))
+	// free-running rounds: real concurrency, seeded delays at the yield points, oracles only
+	frng := c.Rng.Fork("free")
+	fbudget := time.Duration(c.Pick(8, 120)) * time.Second
+	fstart := time.Now()
+	nfree := 0
+	for ; nfree < c.Pick(60, 1500) && time.Since(fstart) < fbudget; nfree++ {
+		npub := 1 + frng.Intn(4)
+		caps := []int{0, 1, 2, npub - 1, npub}
+		cp := caps[frng.Intn(len(caps))]
+		if cp < 0 {
+			cp = 0
+		}
+		cfg := schedrv.Config{NPub: npub, Cap: cp, ChainLen: 6, V: v}
+		nexp, nrm := 0, 0
+		switch frng.Intn(3) {
+		case 1:
+			nexp = 1 + frng.Intn(3)
+		case 2:
+			nexp = frng.Intn(3)
+			nrm = 1 + frng.Intn(2)
+		}
+		fr := schedrv.FreeRun(frng, cfg, 3+frng.Intn(3*npub+3), nexp, nrm)
+		c.Eval()
+		c.Count("free-rounds")
+		c.CountN("free-hook-calls", fr.Hooks)
+		c.CountN("free-events", fr.Events)
+		if fr.Overlap2 {
+			c.Count("free:two-publishers-at-once")
+			c.Nontrivial("free:" + schedrv.DecisionsSig(fr.Script))
+		}
+		if len(fr.Violations) > 0 {
+			vv := fr.Violations[0]
+			desc := fmt.Sprintf("free-running round #%d (cfg %+v): %s", nfree, cfg, vv.Desc)
+			if len(fr.Violations) > 1 {
+				desc += fmt.Sprintf(" (also: %d more)", len(fr.Violations)-1)
+			}
+			c.Fail("free:"+vv.Kind, desc+"; requests "+schedrv.DecisionsSig(fr.Script),
+				map[string]interface{}{"name": "free", "cfg": cfg, "decisions": fr.Script, "note": "free-running round: timing dependent, replay re-issues the requests"})
+			for _, x := range fr.Violations {
+				c.Count("free-oracle:" + x.Kind)
+			}
+		}
+	}
+	c.Note(fmt.Sprintf("%d directed + %d random schedules + %d free-running rounds in %.1fs", len(scenarios), n, nfree, time.Since(t0).Seconds()))
 	if os.Getenv("C08_VERBOSE") != "" {
 		fmt.Println(c.Res.Notes)
 	}
